@@ -507,4 +507,706 @@ theorem histogram_end_bins (xs : List Rat) (n : Nat) (hn : 2 ≤ n) (h : minL xs
     apply List.count_pos_iff.mpr
     exact List.mem_map.mpr ⟨maxL xs, (maxL_spec xs hne).1, binOf_hi _ _ n⟩
 
+/-! ### the NaN-carrying criterion -/
+
+theorem critListN_length (hist : List Nat) (cs : List Rat) (hc : cs.length = hist.length) :
+    (critListN hist cs).length = hist.length - 1 := by
+  simp [critListN, hc]
+
+/-- entry `i` of the float criterion: NaN exactly when one of the two classes of cut `i` is empty, otherwise the
+between-class criterion of the cut -/
+theorem critListN_getElem? (hist : List Nat) (cs : List Rat) (hc : cs.length = hist.length)
+    (i : Nat) (hi : i + 1 < hist.length) :
+    (critListN hist cs)[i]? = some
+      (if sumR ((hist.map (fun (k : Nat) => (k : Rat))).take (i + 1)) = 0 ∨
+          sumR ((hist.map (fun (k : Nat) => (k : Rat))).drop (i + 1)) = 0 then none
+        else some (specCrit hist cs i)) := by
+  unfold critListN specCrit
+  simp only
+  generalize hh : hist.map (fun (k : Nat) => (k : Rat)) = h
+  have hlen : h.length = hist.length := by rw [← hh]; simp
+  generalize hz : List.zipWith (· * ·) h cs = z
+  have zlen : z.length = hist.length := by rw [← hz]; simp [hlen, hc]
+  have e2 : (List.zipWith divN (cumsum z.reverse) (cumsum h.reverse).reverse.reverse).reverse
+      = List.zipWith divN (rcum z) (rcum h) := by
+    rw [List.reverse_zipWith (by simp [zlen, hlen])]
+    simp [rcum]
+  rw [e2]
+  change (List.zipWith (fun (a : Rat) (d : Option Rat) => d.map (fun d => a * d ^ 2))
+      (List.zipWith (· * ·) (cumsum h) (rcum h).tail)
+      (List.zipWith subN (List.zipWith divN (cumsum z) (cumsum h))
+        (List.zipWith divN (rcum z) (rcum h)).tail))[i]? = _
+  simp only [List.getElem?_zipWith, List.getElem?_tail]
+  rw [cumsum_getElem? h i (by omega), cumsum_getElem? z i (by omega),
+    rcum_getElem? h (i + 1) (by omega), rcum_getElem? z (i + 1) (by omega)]
+  simp only [divN]
+  by_cases h1 : sumR (h.take (i + 1)) = 0
+  · simp [h1, subN]
+  · by_cases h2 : sumR (h.drop (i + 1)) = 0
+    · simp [h1, h2, subN]
+    · simp [h1, h2, subN]
+
+/-- with both end bins occupied no class is empty: the float criterion holds no NaN and is the exact one -/
+theorem critListN_eq_some (hist : List Nat) (cs : List Rat) (hc : cs.length = hist.length)
+    (h0 : 1 ≤ hist.getD 0 0) (hl : 1 ≤ hist.getD (hist.length - 1) 0) :
+    critListN hist cs = (critList hist cs).map some := by
+  apply List.ext_getElem?
+  intro i
+  by_cases hi : i + 1 < hist.length
+  · rw [critListN_getElem? hist cs hc i hi, List.getElem?_map, critList_getElem? hist cs hc i hi]
+    obtain ⟨p1, p2⟩ := class_weights_pos hist h0 hl i hi
+    simp [ne_of_gt p1, ne_of_gt p2]
+  · have h1 : (critListN hist cs).length ≤ i := by rw [critListN_length hist cs hc]; omega
+    have h2 : ((critList hist cs).map some).length ≤ i := by
+      rw [List.length_map, critList_length hist cs hc]; omega
+    rw [List.getElem?_eq_none h1, List.getElem?_eq_none h2]
+
+theorem findIdx_map_some (l : List Rat) : (l.map some).findIdx (·.isNone) = (l.map some).length := by
+  induction l with
+  | nil => rfl
+  | cons a l ih => simp [List.findIdx_cons, ih]
+
+theorem argmaxN_map_some (l : List Rat) : argmaxN (l.map some) = argmaxFirst l := by
+  unfold argmaxN
+  rw [findIdx_map_some]
+  simp only [Nat.lt_irrefl, if_false, List.map_map]
+  congr 1
+  induction l with
+  | nil => rfl
+  | cons a l ih => simp
+
+/-- `np.argmax` with NaN: when the array holds a NaN the result is the position of the first one -/
+theorem argmaxN_spec_nan (l : List (Option Rat)) (h : none ∈ l) :
+    argmaxN l < l.length ∧ l[argmaxN l]? = some none ∧ ∀ j, j < argmaxN l → ∃ v, l[j]? = some (some v) := by
+  have hlt : l.findIdx (·.isNone) < l.length := by
+    apply List.findIdx_lt_length_of_exists
+    exact ⟨none, h, rfl⟩
+  unfold argmaxN
+  rw [if_pos hlt]
+  refine ⟨hlt, ?_, ?_⟩
+  · have := List.findIdx_getElem (w := hlt)
+    rw [List.getElem?_eq_getElem hlt]
+    cases hv : l[l.findIdx (·.isNone)] with
+    | none => rfl
+    | some v => rw [hv] at this; simp at this
+  · intro j hj
+    have hjl : j < l.length := by omega
+    have := List.not_of_lt_findIdx hj
+    rw [List.getElem?_eq_getElem hjl]
+    cases hv : l[j] with
+    | none => rw [hv] at this; simp at this
+    | some v => exact ⟨v, rfl⟩
+
+theorem otsuHistN_eq (hist : List Nat) (edges : List Rat) (he : edges.length = hist.length + 1)
+    (h0 : 1 ≤ hist.getD 0 0) (hl : 1 ≤ hist.getD (hist.length - 1) 0) :
+    otsuHistN hist edges = otsuHist hist edges := by
+  unfold otsuHistN otsuHist
+  simp only
+  rw [critListN_eq_some hist _ (by simp [he]) h0 hl, argmaxN_map_some]
+
+theorem argmaxN_lt (l : List (Option Rat)) (hne : l ≠ []) : argmaxN l < l.length := by
+  unfold argmaxN
+  split
+  · assumption
+  · have := (argmaxFirst_spec (l.map (·.getD 0)) (by simpa using hne)).1
+    simpa using this
+
+/-- whatever the histogram, the returned centre lies strictly inside the edge range -/
+theorem otsuHistN_in_range (hist : List Nat) (edges : List Rat) (hn : 2 ≤ hist.length)
+    (he : edges.length = hist.length + 1) (hp : edges.Pairwise (· < ·)) :
+    edges.getD 0 0 < otsuHistN hist edges ∧ otsuHistN hist edges < edges.getD hist.length 0 := by
+  unfold otsuHistN
+  simp only
+  have hcl : (centres edges).length = hist.length := by simp [he]
+  have hlen := critListN_length hist (centres edges) hcl
+  have hne : critListN hist (centres edges) ≠ [] := by
+    intro h; rw [h] at hlen; simp at hlen; omega
+  have hlt := argmaxN_lt _ hne
+  rw [hlen] at hlt
+  have := centre_in_range edges hp (argmaxN (critListN hist (centres edges))) (by omega)
+  rw [he] at this
+  simpa using this
+
+/-- an empty first bin: the first criterion entry is `0/0`, `np.argmax` returns 0, the first centre comes back -/
+theorem otsuHistN_first_empty (hist : List Nat) (edges : List Rat) (hn : 2 ≤ hist.length)
+    (he : edges.length = hist.length + 1) (h0 : hist.getD 0 0 = 0) :
+    (critListN hist (centres edges))[0]? = some none ∧ otsuHistN hist edges = (centres edges).getD 0 0 := by
+  have hcl : (centres edges).length = hist.length := by simp [he]
+  have e0 := critListN_getElem? hist (centres edges) hcl 0 (by omega)
+  have hz : sumR ((hist.map (fun (k : Nat) => (k : Rat))).take (0 + 1)) = 0 := by
+    cases hist with
+    | nil => simp at hn
+    | cons a t =>
+      simp only [List.getD_cons_zero] at h0
+      simp [h0]
+  rw [if_pos (Or.inl hz)] at e0
+  refine ⟨e0, ?_⟩
+  unfold otsuHistN argmaxN
+  simp only
+  have hpos : 0 < (critListN hist (centres edges)).length := by
+    rw [critListN_length hist _ hcl]; omega
+  have hfi : (critListN hist (centres edges)).findIdx (·.isNone) = 0 := by
+    cases hc : critListN hist (centres edges) with
+    | nil => rw [hc] at hpos; simp at hpos
+    | cons a t =>
+      rw [hc] at e0
+      simp only [List.getElem?_cons_zero, Option.some.injEq] at e0
+      simp [List.findIdx_cons, e0]
+  rw [hfi, if_pos hpos]
+
+/-! ### runs of empty bins -/
+
+theorem sumR_take_succ (l : List Rat) (k : Nat) : sumR (l.take (k + 1)) = sumR (l.take k) + l.getD k 0 := by
+  induction l generalizing k with
+  | nil => simp
+  | cons a l ih =>
+    cases k with
+    | zero => simp
+    | succ k => simp [ih k]; ring
+
+theorem sumR_drop_eq (l : List Rat) (k : Nat) : sumR (l.drop k) = l.getD k 0 + sumR (l.drop (k + 1)) := by
+  induction l generalizing k with
+  | nil => simp
+  | cons a l ih =>
+    cases k with
+    | zero => simp
+    | succ k => simp [ih k]
+
+theorem getD_zipWith_mul (h cs : List Rat) (k : Nat) (hk : h.getD k 0 = 0) :
+    (List.zipWith (· * ·) h cs).getD k 0 = 0 := by
+  simp only [List.getD_eq_getElem?_getD, List.getElem?_zipWith] at hk ⊢
+  cases hh : h[k]? with
+  | none => simp
+  | some a =>
+    rw [hh] at hk
+    simp only [Option.getD_some] at hk
+    cases cs[k]? <;> simp [hk]
+
+theorem getD_map_cast (hist : List Nat) (k : Nat) :
+    (hist.map (fun (k : Nat) => (k : Rat))).getD k 0 = ((hist.getD k 0 : Nat) : Rat) := by
+  simp only [List.getD_eq_getElem?_getD, List.getElem?_map]
+  cases hist[k]? <;> simp
+
+/-- an empty bin `i + 1`: the cuts before and after it have the same four sums -/
+theorem cutSums_succ_of_empty (hist : List Nat) (cs : List Rat) (i : Nat) (h : hist.getD (i + 1) 0 = 0) :
+    cutSums hist cs (i + 1) = cutSums hist cs i := by
+  have hz : (hist.map (fun (k : Nat) => (k : Rat))).getD (i + 1) 0 = 0 := by
+    rw [getD_map_cast, h]; simp
+  have hz2 := getD_zipWith_mul _ cs (i + 1) hz
+  unfold cutSums
+  simp only
+  rw [sumR_take_succ _ (i + 1), hz, sumR_take_succ (List.zipWith _ _ _) (i + 1), hz2,
+    sumR_drop_eq _ (i + 1), hz, sumR_drop_eq (List.zipWith _ _ _) (i + 1), hz2]
+  simp
+
+theorem classStart_le (hist : List Nat) (i : Nat) : classStart hist i ≤ i := by
+  induction i with
+  | zero => simp [classStart]
+  | succ i ih =>
+    unfold classStart
+    split
+    · omega
+    · exact Nat.le_refl _
+
+theorem cutSums_classStart (hist : List Nat) (cs : List Rat) (i : Nat) :
+    cutSums hist cs (classStart hist i) = cutSums hist cs i := by
+  induction i with
+  | zero => simp [classStart]
+  | succ i ih =>
+    unfold classStart
+    split
+    · rename_i h
+      rw [ih, cutSums_succ_of_empty hist cs i h]
+    · rfl
+
+/-- all bins strictly after the first cut of the run, up to the cut's own bin, are empty -/
+theorem classStart_empty_between (hist : List Nat) (i j : Nat) (h1 : classStart hist i < j) (h2 : j ≤ i) :
+    hist.getD j 0 = 0 := by
+  induction i with
+  | zero => omega
+  | succ i ih =>
+    unfold classStart at h1
+    split at h1
+    · rename_i h
+      rcases Nat.lt_or_ge i j with hj | hj
+      · have : j = i + 1 := by omega
+        rw [this]; exact h
+      · exact ih h1 hj
+    · omega
+
+theorem specCrit_eq_cutSums (hist : List Nat) (cs : List Rat) (i : Nat) :
+    specCrit hist cs i =
+      (cutSums hist cs i).1 * (cutSums hist cs i).2.1 *
+        ((cutSums hist cs i).2.2.1 / (cutSums hist cs i).1 - (cutSums hist cs i).2.2.2 / (cutSums hist cs i).2.1) ^ 2 := rfl
+
+/-! ### binning against a list of edges -/
+
+/-- in an increasing list the elements `≤ x` are a prefix: the number of them is the index of the first one `> x` -/
+theorem count_le_sorted (l : List Rat) (hp : l.Pairwise (· < ·)) (x : Rat) :
+    (∀ j, j < (l.filter (fun e => decide (e ≤ x))).length → l.getD j 0 ≤ x) ∧
+    ((l.filter (fun e => decide (e ≤ x))).length < l.length →
+      x < l.getD (l.filter (fun e => decide (e ≤ x))).length 0) ∧
+    (l.filter (fun e => decide (e ≤ x))).length ≤ l.length := by
+  induction l with
+  | nil => simp
+  | cons e t ih =>
+    obtain ⟨hhd, htl⟩ := List.pairwise_cons.mp hp
+    obtain ⟨i1, i2, i3⟩ := ih htl
+    by_cases hex : e ≤ x
+    · simp only [List.filter_cons, hex, decide_true, if_true, List.length_cons]
+      refine ⟨?_, ?_, by omega⟩
+      · intro j hj
+        cases j with
+        | zero => simpa using hex
+        | succ j => simpa using i1 j (by omega)
+      · intro hlt
+        simpa using i2 (by omega)
+    · have hnil : t.filter (fun e => decide (e ≤ x)) = [] := by
+        rw [List.filter_eq_nil_iff]
+        intro a ha
+        have := hhd a ha
+        simp only [decide_eq_true_eq, not_le]
+        linarith [not_le.mp hex]
+      simp only [List.filter_cons, hex, decide_false, hnil]
+      refine ⟨by simp, ?_, by simp⟩
+      intro _
+      simpa using not_le.mp hex
+
+theorem interior_getD (edges : List Rat) (j : Nat) (hj : j + 2 < edges.length) :
+    edges.tail.dropLast.getD j 0 = edges.getD (j + 1) 0 := by
+  simp only [List.getD_eq_getElem?_getD]
+  congr 1
+  rw [List.getElem?_dropLast]
+  simp only [List.length_tail, List.getElem?_tail]
+  rw [if_pos (by omega)]
+
+theorem interior_length (edges : List Rat) : edges.tail.dropLast.length = edges.length - 2 := by
+  simp; omega
+
+theorem interior_pairwise (edges : List Rat) (hp : edges.Pairwise (· < ·)) :
+    edges.tail.dropLast.Pairwise (· < ·) :=
+  (hp.sublist (List.tail_sublist edges)).sublist (List.dropLast_sublist _)
+
+/-- **`binByEdges` is the bin.**  For increasing edges `e_0 < … < e_n` and `x ≥ e_0`: the result `k` is a bin
+(`k ≤ n - 1`), `e_k ≤ x`, and `x < e_{k+1}` unless `k` is the last bin -/
+theorem binByEdges_spec (edges : List Rat) (n : Nat) (hn : 1 ≤ n) (he : edges.length = n + 1)
+    (hp : edges.Pairwise (· < ·)) (x : Rat) (h0 : edges.getD 0 0 ≤ x) :
+    binByEdges edges x ≤ n - 1 ∧ edges.getD (binByEdges edges x) 0 ≤ x ∧
+      (binByEdges edges x < n - 1 → x < edges.getD (binByEdges edges x + 1) 0) := by
+  obtain ⟨c1, c2, c3⟩ := count_le_sorted _ (interior_pairwise edges hp) x
+  rw [interior_length, he] at c2 c3
+  unfold binByEdges
+  generalize hk : (edges.tail.dropLast.filter (fun e => decide (e ≤ x))).length = k at *
+  refine ⟨by omega, ?_, ?_⟩
+  · cases k with
+    | zero => exact h0
+    | succ k =>
+      have := c1 k (by omega)
+      rwa [interior_getD edges k (by omega)] at this
+  · intro hlt
+    have := c2 (by omega)
+    rwa [interior_getD edges k (by omega)] at this
+
+/-- a value lies in one bin only -/
+theorem bin_unique (edges : List Rat) (n : Nat) (he : edges.length = n + 1)
+    (hp : edges.Pairwise (· < ·)) (x : Rat) (k k' : Nat) (hk : k ≤ n - 1) (hk' : k' ≤ n - 1)
+    (a1 : edges.getD k 0 ≤ x) (a2 : k < n - 1 → x < edges.getD (k + 1) 0)
+    (b1 : edges.getD k' 0 ≤ x) (b2 : k' < n - 1 → x < edges.getD (k' + 1) 0) : k = k' := by
+  rcases Nat.lt_trichotomy k k' with h | h | h
+  · have := a2 (by omega)
+    have := pairwise_getD_le edges hp (k + 1) k' (by omega) (by omega)
+    linarith
+  · exact h
+  · have := b2 (by omega)
+    have := pairwise_getD_le edges hp (k' + 1) k (by omega) (by omega)
+    linarith
+
+/-- **NumPy's correction steps repair an index estimate that is off by one.**  With increasing edges, a value in
+`[e_0, e_n]` and an estimate `est ≤ n` that is the right bin `k`, or `k ± 1`, the clamp and the two comparisons
+against the edges return `k` -/
+theorem npBin_eq (edges : List Rat) (n : Nat) (hn : 1 ≤ n) (he : edges.length = n + 1)
+    (hp : edges.Pairwise (· < ·)) (x : Rat) (h0 : edges.getD 0 0 ≤ x) (est : Nat)
+    (hest : est = binByEdges edges x ∨ est = binByEdges edges x + 1 ∨ est + 1 = binByEdges edges x) :
+    npBin edges n est x = binByEdges edges x := by
+  obtain ⟨s1, s2, s3⟩ := binByEdges_spec edges n hn he hp x h0
+  generalize binByEdges edges x = k at *
+  have mono : ∀ i j, i < j → j ≤ n → edges.getD i 0 < edges.getD j 0 :=
+    fun i j hij hj => pairwise_getD_lt edges hp i j hij (by omega)
+  unfold npBin
+  rcases hest with rfl | rfl | h
+  · -- est = k
+    have e0 : (if est = n then est - 1 else est) = est := by rw [if_neg (by omega)]
+    simp only [e0]
+    rw [if_neg (not_lt.mpr s2)]
+    rw [if_neg]
+    rintro ⟨h1, h2⟩
+    have := s3 (by omega)
+    linarith
+  · -- est = k + 1
+    by_cases hkn : k + 1 = n
+    · have e0 : (if k + 1 = n then k + 1 - 1 else k + 1) = k := by rw [if_pos hkn]; omega
+      simp only [e0]
+      rw [if_neg (not_lt.mpr s2), if_neg]
+      rintro ⟨_, h2⟩
+      omega
+    · have e0 : (if k + 1 = n then k + 1 - 1 else k + 1) = k + 1 := by rw [if_neg hkn]
+      simp only [e0]
+      have hx := s3 (by omega)
+      rw [if_pos hx]
+      have e1 : k + 1 - 1 = k := by omega
+      simp only [e1]
+      rw [if_neg]
+      rintro ⟨h1, _⟩
+      linarith
+  · -- est = k - 1
+    have hk : k = est + 1 := h.symm
+    subst hk
+    have e0 : (if est = n then est - 1 else est) = est := by rw [if_neg (by omega)]
+    simp only [e0]
+    have hlt := mono est (est + 1) (by omega) (by omega)
+    have hnl : ¬ x < edges.getD est 0 := not_lt.mpr (by linarith)
+    rw [if_neg hnl]
+    rw [if_pos ⟨s2, by omega⟩]
+
+theorem binByEdges_first (edges : List Rat) (n : Nat) (hn : 1 ≤ n) (he : edges.length = n + 1)
+    (hp : edges.Pairwise (· < ·)) : binByEdges edges (edges.getD 0 0) = 0 := by
+  obtain ⟨_, s2, _⟩ := binByEdges_spec edges n hn he hp _ (le_refl _)
+  by_contra hne
+  have := pairwise_getD_lt edges hp 0 (binByEdges edges (edges.getD 0 0)) (by omega) (by omega)
+  linarith
+
+theorem binByEdges_last (edges : List Rat) (n : Nat) (hn : 1 ≤ n) (he : edges.length = n + 1)
+    (hp : edges.Pairwise (· < ·)) : binByEdges edges (edges.getD n 0) = n - 1 := by
+  have h0 : edges.getD 0 0 ≤ edges.getD n 0 := pairwise_getD_le edges hp 0 n (by omega) (by omega)
+  obtain ⟨s1, _, s3⟩ := binByEdges_spec edges n hn he hp _ h0
+  by_contra hne
+  have h1 := s3 (by omega)
+  have := pairwise_getD_le edges hp (binByEdges edges (edges.getD n 0) + 1) n (by omega) (by omega)
+  linarith
+
+@[simp] theorem countBins_length (bins : List Nat) (n : Nat) : (countBins bins n).length = n := by
+  simp [countBins]
+
+theorem countBins_getD (bins : List Nat) (n k : Nat) (hk : k < n) :
+    (countBins bins n).getD k 0 = bins.count k := by
+  simp [countBins, List.getD_eq_getElem?_getD, List.getElem?_range hk]
+
+@[simp] theorem histogramE_length (edges xs : List Rat) : (histogramE edges xs).length = edges.length - 1 := by
+  simp [histogramE]
+
+/-- data binned against increasing edges that start at its minimum and end at its maximum: both end bins are occupied -/
+theorem histogramE_end_bins (edges xs : List Rat) (n : Nat) (hn : 1 ≤ n) (he : edges.length = n + 1)
+    (hp : edges.Pairwise (· < ·)) (hmin : edges.getD 0 0 ∈ xs) (hmax : edges.getD n 0 ∈ xs) :
+    1 ≤ (histogramE edges xs).getD 0 0 ∧ 1 ≤ (histogramE edges xs).getD (n - 1) 0 := by
+  unfold histogramE
+  rw [he, Nat.add_sub_cancel, countBins_getD _ _ _ (by omega), countBins_getD _ _ _ (by omega)]
+  constructor
+  · apply List.count_pos_iff.mpr
+    exact List.mem_map.mpr ⟨_, hmin, binByEdges_first edges n hn he hp⟩
+  · apply List.count_pos_iff.mpr
+    exact List.mem_map.mpr ⟨_, hmax, binByEdges_last edges n hn he hp⟩
+
+theorem otsuEdges_in_range (edges xs : List Rat) (n : Nat) (hn : 2 ≤ n) (he : edges.length = n + 1)
+    (hp : edges.Pairwise (· < ·)) :
+    edges.getD 0 0 < otsuEdges edges xs ∧ otsuEdges edges xs < edges.getD n 0 := by
+  unfold otsuEdges
+  have hl : (histogramE edges xs).length = n := by rw [histogramE_length, he]; omega
+  have := otsuHistN_in_range (histogramE edges xs) edges (by omega) (by omega) hp
+  rwa [hl] at this
+
+/-! ### scaling, against any edges -/
+
+theorem binByEdges_scale (c : Rat) (hc : 0 < c) (edges : List Rat) (x : Rat) :
+    binByEdges (edges.map (c * ·)) (c * x) = binByEdges edges x := by
+  unfold binByEdges
+  rw [← List.map_tail, ← List.map_dropLast, List.filter_map, List.length_map]
+  congr 2
+  funext e
+  simp only [Function.comp, decide_eq_decide]
+  exact mul_le_mul_iff_right₀ hc
+
+theorem histogramE_scale (c : Rat) (hc : 0 < c) (edges xs : List Rat) :
+    histogramE (edges.map (c * ·)) (xs.map (c * ·)) = histogramE edges xs := by
+  unfold histogramE
+  rw [List.map_map, List.length_map]
+  congr 2
+  funext x
+  exact binByEdges_scale c hc edges x
+
+theorem otsuEdges_scale (c : Rat) (hc : 0 < c) (edges xs : List Rat) (n : Nat) (hn : 1 ≤ n)
+    (he : edges.length = n + 1) (hp : edges.Pairwise (· < ·))
+    (hmin : edges.getD 0 0 ∈ xs) (hmax : edges.getD n 0 ∈ xs) :
+    otsuEdges (edges.map (c * ·)) (xs.map (c * ·)) = c * otsuEdges edges xs := by
+  obtain ⟨g0, g1⟩ := histogramE_end_bins edges xs n hn he hp hmin hmax
+  have hl : (histogramE edges xs).length = n := by rw [histogramE_length, he]; omega
+  have he' : edges.length = (histogramE edges xs).length + 1 := by omega
+  unfold otsuEdges
+  rw [histogramE_scale c hc]
+  rw [otsuHistN_eq _ _ (by simpa using he') g0 (by rw [hl]; exact g1),
+    otsuHistN_eq _ _ he' g0 (by rw [hl]; exact g1)]
+  exact otsuHist_scale c hc _ edges he'
+
+/-! ### NaN in the data -/
+
+/-- the boolean mask `~np.isnan(x)` selects the values that are numbers, in their order -/
+theorem maskSelect_notNan (xs : List (Option Rat)) :
+    maskSelect xs (xs.map (fun v => !v.isNone)) = (xs.filterMap id).map some := by
+  induction xs with
+  | nil => rfl
+  | cons a l ih =>
+    cases a with
+    | none => simpa [maskSelect] using ih
+    | some q =>
+      simp only [List.map_cons, Option.isNone_some, Bool.not_false, maskSelect, if_true, List.filterMap_cons, id]
+      rw [ih]
+      rfl
+
+theorem foldl_nanProp_some (f : Rat → Rat → Rat) (l : List Rat) (a : Rat) :
+    (l.map some).foldl (fun (acc v : Option Rat) => match acc, v with
+      | some p, some q => some (f p q)
+      | _, _ => none) (some a) = some (l.foldl f a) := by
+  induction l generalizing a with
+  | nil => rfl
+  | cons b l ih => simpa using ih (f a b)
+
+theorem reduceN_map_some (f : Rat → Rat → Rat) (a : Rat) (l : List Rat) :
+    reduceN f ((a :: l).map some) = some (l.foldl f a) := by
+  simp only [List.map_cons, reduceN]
+  exact foldl_nanProp_some f l a
+
+theorem foldl_nanProp_none (f : Rat → Rat → Rat) (l : List (Option Rat)) :
+    l.foldl (fun (acc v : Option Rat) => match acc, v with
+      | some p, some q => some (f p q)
+      | _, _ => none) none = none := by
+  induction l with
+  | nil => rfl
+  | cons b l ih => simpa using ih
+
+theorem foldl_nanProp_mem (f : Rat → Rat → Rat) (l : List (Option Rat)) (acc : Option Rat) (h : none ∈ l) :
+    l.foldl (fun (acc v : Option Rat) => match acc, v with
+      | some p, some q => some (f p q)
+      | _, _ => none) acc = none := by
+  induction l generalizing acc with
+  | nil => simp at h
+  | cons b l ih =>
+    simp only [List.foldl_cons]
+    rcases List.mem_cons.mp h with hb | hl
+    · subst hb
+      cases acc <;> exact foldl_nanProp_none f l
+    · exact ih _ hl
+
+/-- `np.min` / `np.max` of an array that holds a NaN is NaN -/
+theorem reduceN_nan (f : Rat → Rat → Rat) (xs : List (Option Rat)) (h : none ∈ xs) : reduceN f xs = none := by
+  cases xs with
+  | nil => rfl
+  | cons a l =>
+    simp only [reduceN]
+    rcases List.mem_cons.mp h with ha | hl
+    · subst ha; exact foldl_nanProp_none f l
+    · exact foldl_nanProp_mem f l _ hl
+
+theorem outerEdges_map_some (ys : List Rat) (hne : ys ≠ []) : outerEdges (ys.map some) = some (histRange ys) := by
+  cases ys with
+  | nil => exact absurd rfl hne
+  | cons a l =>
+    unfold outerEdges
+    rw [reduceN_map_some, reduceN_map_some]
+    simp [histRange, minL, maxL]
+
+theorem outerEdges_nan (xs : List (Option Rat)) (h : none ∈ xs) : outerEdges xs = none := by
+  unfold outerEdges
+  have hne : xs.isEmpty = false := by
+    cases xs with
+    | nil => simp at h
+    | cons _ _ => rfl
+  rw [hne, reduceN_nan min xs h]
+  simp
+
+theorem keepInRange_all (lo hi : Rat) (ys : List Rat) (h : ∀ y ∈ ys, lo ≤ y ∧ y ≤ hi) :
+    keepInRange lo hi (ys.map some) = ys := by
+  unfold keepInRange
+  induction ys with
+  | nil => rfl
+  | cons a l ih =>
+    have ha := h a (by simp)
+    have := ih (fun y hy => h y (by simp [hy]))
+    simp [ha.1, ha.2, this]
+
+theorem histRange_contains (ys : List Rat) (hne : ys ≠ []) :
+    ∀ y ∈ ys, (histRange ys).1 ≤ y ∧ y ≤ (histRange ys).2 := by
+  intro y hy
+  have h1 := (minL_spec ys hne).2 y hy
+  have h2 := (maxL_spec ys hne).2 y hy
+  unfold histRange
+  simp only
+  split
+  · constructor <;> simp only <;> linarith
+  · exact ⟨h1, h2⟩
+
+/-- on an array without NaN, `np.histogram` of the `Option` layer is the plain `histogram` -/
+theorem histogramN_map_some (ys : List Rat) (hne : ys ≠ []) (n : Nat) :
+    histogramN (ys.map some) n = some (histogram ys n) := by
+  unfold histogramN
+  rw [outerEdges_map_some ys hne]
+  simp only [Option.map_some]
+  rw [keepInRange_all _ _ ys (histRange_contains ys hne)]
+  rfl
+
+theorem otsuArr_false_map_some (ys : List Rat) (hne : ys ≠ []) (n : Nat) :
+    otsuArr false (ys.map some) n = some (otsuHistN (histogram ys n).1 (histogram ys n).2) := by
+  unfold otsuArr
+  simp only [Bool.false_eq_true, if_false]
+  rw [histogramN_map_some ys hne]
+  rfl
+
+theorem ne_nil_of_min_lt_max (ys : List Rat) (h : minL ys < maxL ys) : ys ≠ [] := by
+  intro h0; subst h0; simp [minL, maxL] at h
+
+theorem histogram_snd_length (xs : List Rat) (n : Nat) : (histogram xs n).2.length = n + 1 := by
+  unfold histogram
+  simp [uniformEdges_length]
+
+/-- two distinct values: the NaN-carrying mechanism on the exact histogram is the plain one -/
+theorem otsuHistN_histogram (ys : List Rat) (n : Nat) (hn : 2 ≤ n) (h : minL ys < maxL ys) :
+    otsuHistN (histogram ys n).1 (histogram ys n).2 = otsuData ys n := by
+  obtain ⟨hl, g0, g1⟩ := histogram_end_bins ys n hn h
+  rw [otsuHistN_eq _ _ (by rw [hl, histogram_snd_length]) g0 (by rw [hl]; exact g1)]
+  rfl
+
+/-! ### exact uniform binning is binning against the uniform edges -/
+
+theorem binOf_eq_binByEdges (lo hi : Rat) (hlh : lo < hi) (n : Nat) (hn : 1 ≤ n) (x : Rat)
+    (hx0 : lo ≤ x) (hx1 : x ≤ hi) :
+    binOf lo hi n x = binByEdges (uniformEdges lo hi n) x := by
+  have hnq : (0 : Rat) < (n : Rat) := by exact_mod_cast hn
+  have hw : 0 < hi - lo := by linarith
+  have he := uniformEdges_length lo hi n
+  have hp := uniformEdges_pairwise lo hi n hn hlh
+  have e0 : (uniformEdges lo hi n).getD 0 0 = lo := by
+    rw [uniformEdges_getD lo hi n 0 (by omega)]; simp
+  obtain ⟨s1, s2, s3⟩ := binByEdges_spec _ n hn he hp x (by rw [e0]; exact hx0)
+  apply bin_unique _ n he hp x _ _ _ s1 _ _ s2 s3
+  · -- binOf ≤ n - 1
+    unfold binOf
+    split
+    · exact Nat.le_refl _
+    · rename_i hne
+      have hxlt : x < hi := lt_of_le_of_ne hx1 hne
+      have hp1 : (x - lo) / (hi - lo) * (n : Rat) < (n : Rat) := by
+        have : (x - lo) / (hi - lo) < 1 := by rw [div_lt_one hw]; linarith
+        nlinarith
+      have hfl : ((x - lo) / (hi - lo) * (n : Rat)).floor < (n : Int) := by
+        rw [Rat.floor_lt_iff]; exact_mod_cast hp1
+      omega
+  · -- e_k ≤ x
+    unfold binOf
+    split
+    · rename_i heq
+      rw [uniformEdges_getD lo hi n (n - 1) (by omega), heq]
+      have : ((n - 1 : Nat) : Rat) ≤ (n : Rat) := by exact_mod_cast Nat.sub_le n 1
+      have h1 : (hi - lo) * ((n - 1 : Nat) : Rat) / (n : Rat) ≤ hi - lo := by
+        rw [div_le_iff₀ hnq]; nlinarith
+      linarith
+    · rename_i hne
+      have hp0 : 0 ≤ (x - lo) / (hi - lo) * (n : Rat) :=
+        mul_nonneg (div_nonneg (by linarith) hw.le) hnq.le
+      have hf0 : 0 ≤ ((x - lo) / (hi - lo) * (n : Rat)).floor := by
+        rw [Rat.le_floor_iff]; exact_mod_cast hp0
+      have hfl := Rat.floor_le ((x - lo) / (hi - lo) * (n : Rat))
+      have hk : ((((x - lo) / (hi - lo) * (n : Rat)).floor.toNat : Nat) : Rat)
+          = ((((x - lo) / (hi - lo) * (n : Rat)).floor : Int) : Rat) := by
+        have := Int.toNat_of_nonneg hf0
+        exact_mod_cast congrArg (fun z : Int => (z : Rat)) this
+      have hkn : ((x - lo) / (hi - lo) * (n : Rat)).floor.toNat ≤ n := by
+        have hp1 : (x - lo) / (hi - lo) * (n : Rat) ≤ (n : Rat) := by
+          have : (x - lo) / (hi - lo) ≤ 1 := by rw [div_le_one hw]; linarith
+          nlinarith
+        have : ((x - lo) / (hi - lo) * (n : Rat)).floor ≤ (n : Int) := by
+          have := le_trans (Rat.floor_le ((x - lo) / (hi - lo) * (n : Rat))) hp1
+          exact_mod_cast this
+        omega
+      rw [uniformEdges_getD lo hi n _ hkn, hk]
+      have : (hi - lo) * ((((x - lo) / (hi - lo) * (n : Rat)).floor : Int) : Rat) / (n : Rat) ≤ x - lo := by
+        rw [div_le_iff₀ hnq]
+        have h2 : (x - lo) / (hi - lo) * (n : Rat) * (hi - lo) = (x - lo) * (n : Rat) := by
+          field_simp
+        nlinarith
+      linarith
+  · -- x < e_{k+1}
+    unfold binOf
+    split
+    · intro h; omega
+    · rename_i hne
+      intro hklt
+      have hp0 : 0 ≤ (x - lo) / (hi - lo) * (n : Rat) :=
+        mul_nonneg (div_nonneg (by linarith) hw.le) hnq.le
+      have hf0 : 0 ≤ ((x - lo) / (hi - lo) * (n : Rat)).floor := by
+        rw [Rat.le_floor_iff]; exact_mod_cast hp0
+      have hlt := Rat.lt_floor_add_one ((x - lo) / (hi - lo) * (n : Rat))
+      have hk : ((((x - lo) / (hi - lo) * (n : Rat)).floor.toNat + 1 : Nat) : Rat)
+          = ((((x - lo) / (hi - lo) * (n : Rat)).floor + 1 : Int) : Rat) := by
+        have := Int.toNat_of_nonneg hf0
+        push_cast
+        congr 1
+        exact_mod_cast congrArg (fun z : Int => (z : Rat)) this
+      rw [uniformEdges_getD lo hi n _ (by omega), hk]
+      have : x - lo < (hi - lo) * ((((x - lo) / (hi - lo) * (n : Rat)).floor + 1 : Int) : Rat) / (n : Rat) := by
+        rw [lt_div_iff₀ hnq]
+        have h2 : (x - lo) / (hi - lo) * (n : Rat) * (hi - lo) = (x - lo) * (n : Rat) := by
+          field_simp
+        nlinarith
+      linarith
+
+/-- the exact uniform histogram is the histogram against the uniform edges -/
+theorem histogram_eq_histogramE (xs : List Rat) (n : Nat) (hn : 1 ≤ n) (h : minL xs < maxL xs) :
+    histogram xs n = (histogramE (uniformEdges (minL xs) (maxL xs) n) xs, uniformEdges (minL xs) (maxL xs) n) := by
+  have hne := ne_nil_of_min_lt_max xs h
+  unfold histogram histogramE
+  rw [histRange_of_lt xs h]
+  simp only [uniformEdges_length, Nat.add_sub_cancel]
+  congr 1
+  change countBins _ n = countBins _ n
+  congr 1
+  apply List.map_congr_left
+  intro x hx
+  exact binOf_eq_binByEdges _ _ h n hn x ((minL_spec xs hne).2 x hx) ((maxL_spec xs hne).2 x hx)
+
+/-! ### an empty class has moment zero: the quotient is `0/0`, never `x/0` with `x ≠ 0` -/
+
+theorem sumR_zipWith_zero (h cs : List Rat) (hnn : ∀ x ∈ h, 0 ≤ x) (hz : sumR h = 0) :
+    sumR (List.zipWith (· * ·) h cs) = 0 := by
+  induction h generalizing cs with
+  | nil => simp
+  | cons a t ih =>
+    have ha := hnn a (by simp)
+    have ht := sumR_nonneg t (fun x hx => hnn x (by simp [hx]))
+    simp only [sumR_cons] at hz
+    have a0 : a = 0 := by linarith
+    have t0 : sumR t = 0 := by linarith
+    cases cs with
+    | nil => simp
+    | cons c cs =>
+      simp only [List.zipWith_cons_cons, sumR_cons, a0, zero_mul, zero_add]
+      exact ih cs (fun x hx => hnn x (by simp [hx])) t0
+
+theorem prefix_moment_zero (hist : List Nat) (cs : List Rat) (i : Nat)
+    (h : (cutSums hist cs i).1 = 0) : (cutSums hist cs i).2.2.1 = 0 := by
+  unfold cutSums at h ⊢
+  simp only at h ⊢
+  rw [List.take_zipWith]
+  apply sumR_zipWith_zero _ _ _ h
+  intro x hx
+  obtain ⟨k, -, rfl⟩ := List.mem_map.mp (List.mem_of_mem_take hx)
+  exact Nat.cast_nonneg k
+
+theorem suffix_moment_zero (hist : List Nat) (cs : List Rat) (i : Nat)
+    (h : (cutSums hist cs i).2.1 = 0) : (cutSums hist cs i).2.2.2 = 0 := by
+  unfold cutSums at h ⊢
+  simp only at h ⊢
+  rw [List.drop_zipWith]
+  apply sumR_zipWith_zero _ _ _ h
+  intro x hx
+  obtain ⟨k, -, rfl⟩ := List.mem_map.mp (List.mem_of_mem_drop hx)
+  exact Nat.cast_nonneg k
+
 end Pew.Otsu
